@@ -306,6 +306,18 @@ def clamp_rule(ctx, prog, chk):
             if f.name == irname and not f.decl:
                 return bf_of(f.unit)
         return None
+    units_u = {}
+
+    def bf_unrolled(unit):
+        if unit not in units_u:
+            units_u[unit] = bitflow.BitFlow(e9.O2Unit(ctx, unit, opt="O2u"), resolver_u)
+        return units_u[unit]
+
+    def resolver_u(irname):
+        for f in prog.functions():
+            if f.name == irname and not f.decl:
+                return bf_unrolled(f.unit)
+        return None
 
     CLAMPED = {(0, 0), (0, 1), (0, 2), (31, 6), (31, 7)}
     n = 0
@@ -327,6 +339,15 @@ def clamp_rule(ctx, prog, chk):
                         leak.append((byte, bit))
                     elif (byte, bit) not in ignored and not seen:
                         blind.append((byte, bit))
+            if leak:
+                # E11 is a may-analysis: a word array filled in a counted loop merges the bits of all its words. Ask again on the IR
+                # with constant-trip loops unrolled; a bit leaks only if it does in both.
+                bu = bf_unrolled(fn.unit)
+                if fn.name in bu.unit.fns:
+                    def seen_u(byte, bit):
+                        r = bu.analyse(fn.name, pidx, byte, bit)
+                        return bool(r["ret"] or r["branches"] or r["calls"] or r["stores"])
+                    leak = [x for x in leak if seen_u(*x)]
             chk.ob("R5.4", fn, "%s bits %s cannot influence the computation" % (what, sorted(8 * b + k for b, k in ignored)), not leak,
                    detail="(byte, bit) %s reach a use" % leak if leak else "", key="R5.4 %s %s ignored-bits" % (name, what))
             chk.ob("R5.4", fn, "every other %s bit can influence the computation" % what, not blind,
